@@ -1,4 +1,5 @@
 import Ysshra.Lemmas.Shim
+import Ysshra.Lemmas.ShimArr
 /-
 C07 — the shim agent never lists or signs with expired, premature or keyless certificates.
 -/
@@ -168,6 +169,73 @@ theorem c07_memory_purged (s : State) (now : Nat) (f : Faults) (keys : List Iden
 theorem c07_list_failure (s : State) (now : Nat) (f : Faults) (u1 : UAgent) (hl : s.u.list f = (u1, none)) :
     filter s now f = ({ s with u := u1 }, none) := by
   unfold filter; simp [hl]
+
+/-- **No listing contains a certificate outside its validity window — the underlying agent's
+    half.**  Whatever the state, the clock and the faults: if `filter` succeeds, every certificate in
+    the key list it returns (the underlying agent's identities, after the orphan pass, the in-agent
+    expiry pass with its swap-removing `remove` closure over the live backing array, and the
+    in-memory pass) is inside its validity window, the list has pairwise different blobs, and
+    every entry was in the underlying agent's listing.  (`uniq`: the keyring never lists two
+    identities with the same public blob.) -/
+theorem c07_listing_valid (s : State) (now : Nat) (f : Faults) (listing keys : List Ident) (u1 : UAgent) (s' : State)
+    (hl : s.u.list f = (u1, some listing)) (uniq : Distinct listing)
+    (hf : filter s now f = (s', some keys)) :
+    AllValid now keys ∧ Distinct keys ∧ ∀ x ∈ keys, x ∈ listing := by
+  unfold filter at hf
+  rw [hl] at hf
+  simp only [] at hf
+  -- the slice as it enters each pass
+  have h0 : Good listing (⟨listing, listing.length⟩ : KeyArr) := by
+    refine ⟨Nat.le_refl _, ?_, ?_⟩
+    · unfold KeyArr.live; simpa using uniq
+    · unfold KeyArr.live; intro x hx; simpa using hx
+  have h1 := filterOrphans_good listing { s with u := u1 } f ⟨listing, listing.length⟩ h0
+  cases ho : filterOrphans { s with u := u1 } f ⟨listing, listing.length⟩ with
+  | mk s1 ka1 =>
+    rw [ho] at hf h1
+    simp only [] at hf h1
+    cases he : expiredInAgent now f ka1.len 0 s1 ka1 false with
+    | mk s2 r2 =>
+      obtain ⟨ka2, err⟩ := r2
+      rw [he] at hf
+      simp only [] at hf
+      cases hm : expiredInMemory now f s2 ka2 with
+      | mk s3 ka3 =>
+        rw [hm] at hf
+        simp only [] at hf
+        cases err with
+        | true => simp at hf
+        | false =>
+          simp only [Bool.false_eq_true, ↓reduceIte, Prod.mk.injEq, Option.some.injEq] at hf
+          obtain ⟨_, rfl⟩ := hf
+          -- the in-agent pass: loop invariant from index 0 to the slice length at entry
+          have hloop := expiredInAgent_inv ka1.arr ka1.len now f h1.wf ka1.len 0 s1 ka1 (by omega)
+            (loopInv_init ka1 now h1.wf h1.distinct) (by rw [he])
+          rw [he] at hloop
+          have hv2 : AllValid now ka2.live := loopInv_final _ _ _ _ hloop
+          have h2 : Good ka2.live ka2 := ⟨hloop.wf, hloop.distinct, fun _ h => h⟩
+          have h3 := expiredInMemory_good ka2.live now s2 f ka2 h2
+          rw [hm] at h3
+          simp only [] at h3
+          have hg2 := expiredInAgent_good listing now f ka1.len 0 s1 ka1 false h1
+          rw [he] at hg2
+          simp only [] at hg2
+          refine ⟨?_, h3.distinct, ?_⟩
+          · intro x hx c hc; exact hv2 x (h3.sub x hx) c hc
+          · intro x hx; exact hg2.sub x (h3.sub x hx)
+
+/-- Non-vacuity, on the pattern that makes swap-removal delicate: three expired certificates and one
+    valid one, the expired ones first, last and adjacent — the listing that comes back is exactly
+    the valid certificate and the key. -/
+example :
+    let e1 : Cert := ⟨1, 1, 10, 20, false, none⟩
+    let e2 : Cert := ⟨2, 1, 10, 20, false, none⟩
+    let e3 : Cert := ⟨3, 1, 10, 20, false, none⟩
+    let v : Cert := ⟨4, 1, 10, 2000, false, none⟩
+    let ids : List Ident := [⟨.cert e1, []⟩, ⟨.key 1, []⟩, ⟨.cert v, []⟩, ⟨.cert e2, []⟩, ⟨.cert e3, []⟩]
+    let s : State := ⟨[], [], false, false, ⟨ids, false, [], false⟩⟩
+    (filter s 100 noFaults).2 = some [⟨.cert v, []⟩, ⟨.key 1, []⟩] ∨
+    (filter s 100 noFaults).2 = some [⟨.key 1, []⟩, ⟨.cert v, []⟩] := by decide
 
 end C07
 end Ysshra
